@@ -11,7 +11,7 @@ SCALARS = [
     None, True, False, 0, 1, -1, 2, 7, 2**70, -(2**63) - 1, 2**1024, -(10**400), 0.0, 1.0, 0.5, -1.5, 2.25, 1e100, 5e-324,
     "", "a", "b", "xyz", "é", "\n\"\\\t", "\U0001f600", "a b", "0",
 ]
-KEYS = ["a", "b", "c", "k", "", "key", "é", "z9"]
+KEYS = ["a", "b", "c", "k", "", "key", "é", "z9", "_u"]
 DOT_KEYS = ["a.b", ".", "x.y.z"]
 
 
